@@ -167,6 +167,17 @@ def check_pair(spec, counters=None):
         if np.abs(both - got).max() > 1e-13 * scale.max():
             problems.append(Problem("C06/meta/one_vs_two", "S(b) != S(b, b)"))
         moved = compute_overlap(ob0, p0["centers"] + shift)
+        # the very same basis object at two different geometries
+        rng = np.random.Generator(np.random.PCG64(spec["conv2_seed"]))
+        other = p0["centers"] + rng.normal(size=p0["centers"].shape) * 0.3
+        p0moved = dict(p0, centers=other)
+        ref_two = O.overlap(p0, p0moved, screen=True)
+        got_two = compute_overlap(ob0, p0["centers"], ob0, other)
+        if (np.abs(got_two - ref_two) > tol).any():
+            problems.append(
+                Problem("C06/value/same_basis_two_geometries",
+                        "S(b, R0, b, R1) with the same basis object differs from the reference")
+            )
     else:
         swapped = compute_overlap(ob1, p1["centers"], ob0, p0["centers"])
         if np.abs(swapped.T - got).max() > 1e-13 * scale.max():
